@@ -11,6 +11,7 @@ package c17
 import (
 	"fmt"
 	"math/rand"
+	"reflect"
 	"strings"
 	"sync/atomic"
 	"time"
@@ -207,6 +208,20 @@ func (l *local) ids(gs []string) []int {
 	return out
 }
 
+// tfCursor reads the TextField's cursor index. The widget exports no accessor;
+// the property names the private field ("TextField.Value, cursor, n") and
+// demands that it is the ideal editor's grapheme index, always within the text,
+// so it is read (never written) through reflection. -1 = not observable (no
+// unsigned integer field of that name): the cursor is then judged through the
+// drawn cursor column only.
+func tfCursor(tf *textfield.TextField) int {
+	f := reflect.ValueOf(tf).Elem().FieldByName("cursor")
+	if !f.IsValid() || !f.CanUint() {
+		return -1
+	}
+	return int(f.Uint())
+}
+
 // ---- executor ------------------------------------------------------------------
 
 type Ctx struct {
@@ -381,6 +396,7 @@ func Run(c *Ctx, wk *Worker, sc *Scn) (evs []trace.Ev, note string) {
 				// observe
 				if tf != nil {
 					text = loc.ids(segment(tf.Value))
+					cur = tfCursor(tf)
 					if c.Hangs.Load() < 4 {
 						s, err := tf.Draw(vxfw.DrawContext{Max: vxfw.Size{Width: uint16(win), Height: 1}, Characters: vaxis.Characters})
 						if err != nil {
@@ -461,12 +477,35 @@ func joinOps(k int) []Op {
 	return []Op{insOp(j[0]), {K: "insjoin", Via: "key", Gs: []string{j[1]}, Base: j[0]}}
 }
 
+// pasteJoinOps: the base typed, then a paste that starts with the joining
+// character followed by more graphemes.
+func pasteJoinOps(k int, more ...string) []Op {
+	j := Joins[k%len(Joins)]
+	return []Op{insOp(j[0]), {K: "pastejoin", Via: "key", Gs: append([]string{j[1]}, more...), Base: j[0]}}
+}
+
+// Ctls: control characters a paste may contain; on a legacy terminal the same
+// bytes are the keys Enter, Ctrl+a, Ctrl+k, Ctrl+e, BackSpace (2x), Ctrl+d,
+// Ctrl+u, Ctrl+w, Ctrl+b, Ctrl+f, which the widgets bind.
+// (No LF: CR LF would be one cluster; no TAB: see notes, not judged.)
+var Ctls = []string{"\r", "\x01", "\x0b", "\x05", "\x08", "\x7f", "\x04", "\x15", "\x17", "\x02", "\x06"}
+
+// pasteCtlOp: a paste of gs with the control character Ctls[k] put at position at.
+func pasteCtlOp(k, at int, gs ...string) Op {
+	at %= len(gs) + 1
+	out := append([]string{}, gs[:at]...)
+	out = append(out, Ctls[k%len(Ctls)])
+	out = append(out, gs[at:]...)
+	return Op{K: "pastectl", Via: "key", Gs: out}
+}
+
 // BaseOps is the command alphabet of the bounded-exhaustive family.
 func BaseOps(widget string, alt int) []Op {
 	ops := []Op{insOp("a"), insOp("世"), insOp(EAcute), insOp(" ")}
 	ks := []string{"left", "right", "home", "end", "bs", "del", "killeol"}
 	if widget == "textfield" {
 		ks = append(ks, "enter")
+		ops = append(ops, pasteCtlOp(alt, 1, "b", "👍🏽"))
 	} else {
 		ks = append(ks, "wordleft", "wordright", "killbol", "delword")
 		ops = append(ops, Op{K: "paste", Via: "key", Gs: []string{"b", "👍🏽"}})
@@ -528,6 +567,43 @@ func Exhaustive(widget string, n int) []*Scn {
 	return out
 }
 
+// Prefixed: from every start, one of the two-stage inputs (a base and a
+// character joining it, typed or pasted; a paste holding a control character),
+// followed by every command sequence of length 0..n over BaseOps.
+func Prefixed(widget string, n int) []*Scn {
+	var pres [][]Op
+	for k := range Joins {
+		pres = append(pres, joinOps(k), pasteJoinOps(k), pasteJoinOps(k, "b", "世"))
+	}
+	for k := range Ctls {
+		pres = append(pres, []Op{pasteCtlOp(k, k, "a", EAcute)})
+	}
+	var out []*Scn
+	cnt := 0
+	for si, st := range Starts(widget) {
+		for _, pre := range pres {
+			var rec func(suffix []Op)
+			rec = func(suffix []Op) {
+				cnt++
+				sc := &Scn{Widget: widget, Gen: "pre", W: widths[cnt%len(widths)]}
+				if widget == "textinput" && cnt%5 == 0 {
+					sc.Prompt = "> "
+				}
+				sc.Ops = append(append(append([]Op(nil), st...), pre...), suffix...)
+				out = append(out, sc)
+				if len(suffix) == n {
+					return
+				}
+				for _, op := range BaseOps(widget, cnt+si) {
+					rec(append(append([]Op(nil), suffix...), op))
+				}
+			}
+			rec(nil)
+		}
+	}
+	return out
+}
+
 // Random: a long history over the full command set, including method calls,
 // unbound keys, key releases, pastes and window resizes.
 func Random(rng *rand.Rand, widget string, n int) *Scn {
@@ -549,8 +625,25 @@ func Random(rng *rand.Rand, widget string, n int) *Scn {
 		case x < 30:
 			sc.Ops = append(sc.Ops, insOp(pick()))
 		case x < 34:
-			sc.Ops = append(sc.Ops, Op{K: "paste", Via: "key", Gs: some(4)})
-		case x < 84:
+			if rng.Intn(3) == 0 {
+				op := pasteCtlOp(rng.Intn(len(Ctls)), rng.Intn(5), some(3)...)
+				if rng.Intn(3) == 0 {
+					op = pasteCtlOp(rng.Intn(len(Ctls)), rng.Intn(5), op.Gs...)
+				}
+				sc.Ops = append(sc.Ops, op)
+			} else {
+				sc.Ops = append(sc.Ops, Op{K: "paste", Via: "key", Gs: some(4)})
+			}
+		case x < 36:
+			switch rng.Intn(3) {
+			case 0:
+				sc.Ops = append(sc.Ops, joinOps(rng.Intn(len(Joins)))...)
+			case 1:
+				sc.Ops = append(sc.Ops, pasteJoinOps(rng.Intn(len(Joins)))...)
+			default:
+				sc.Ops = append(sc.Ops, pasteJoinOps(rng.Intn(len(Joins)), some(2)...)...)
+			}
+		case x < 85:
 			var ks []string
 			for k := range Bindings[widget] {
 				ks = append(ks, k)
@@ -561,15 +654,13 @@ func Random(rng *rand.Rand, widget string, n int) *Scn {
 				k = "left"
 			}
 			sc.Ops = append(sc.Ops, keyOp(widget, k, rng.Intn(8)))
-		case x < 86:
+		case x < 87:
 			sc.Ops = append(sc.Ops, Op{K: "noop", Via: "key", Key: "release"})
 		case x < 90:
 			sc.Ops = append(sc.Ops, Op{K: "resize", Via: "call", W: []int{0, 1, 2, 3, 4, 5, 6, 8, 10, 14, 20, 40, 80}[rng.Intn(13)]})
 		default:
 			if widget == "textfield" {
-				switch rng.Intn(8) {
-				case 7:
-					sc.Ops = append(sc.Ops, joinOps(rng.Intn(len(Joins)))...)
+				switch rng.Intn(7) {
 				case 0:
 					sc.Ops = append(sc.Ops, Op{K: "reset", Via: "call"})
 				case 1:
@@ -627,6 +718,16 @@ func Corners() []*Scn {
 		add(wd, 6, "", insOp("a"), insOp("b"), insOp("c"), insOp("d"), insOp("e"), insOp("f"), insOp("g"), insOp("h"),
 			Op{K: "resize", Via: "call", W: 40}, k("left"), Op{K: "resize", Via: "call", W: 6}, k("home"), Op{K: "resize", Via: "call", W: 40})
 		add(wd, 40, "", Op{K: "noop", Via: "key", Key: "release"}, insOp("A"), insOp("Z"), k("noop"))
+		// a character typed or pasted on its own that joins the cluster before the cursor
+		for j := range Joins {
+			add(wd, 40, "", append(joinOps(j), k("left"), insOp("b"), k("end"), k("bs"), k("bs"))...)
+			add(wd, 40, "", append(append([]Op{insOp("a"), insOp("b"), k("left")}, pasteJoinOps(j, "7")...), k("left"), k("left"), k("del"), k("right"), insOp("-"))...)
+		}
+		// pasted text is text: a line break in it is not Enter, control bytes are not commands
+		add(wd, 40, "", insOp("b"), insOp("7"), Op{K: "pastectl", Via: "key", Gs: []string{"a", "b", "\r", "世", "-"}}, k("left"), insOp("a"))
+		add(wd, 40, "", insOp("b"), insOp("7"), Op{K: "pastectl", Via: "key", Gs: []string{"\x01", "\x0b", "a"}}, k("home"), k("del"))
+		add(wd, 40, "", insOp("b"), insOp("7"), k("left"), Op{K: "pastectl", Via: "key", Gs: []string{"\x05", "a", "\x08", "\x7f"}}, insOp("-"))
+		add(wd, 40, "", insOp("b"), insOp("7"), k("home"), Op{K: "pastectl", Via: "key", Gs: []string{"\x04", "\x06", "a", "\x15"}}, Op{K: "pastectl", Via: "key", Gs: []string{"\x17", "\x02"}}, insOp("-"))
 	}
 	ti := "textinput"
 	k := func(name string, alt int) Op { return keyOp(ti, name, alt) }
@@ -639,6 +740,17 @@ func Corners() []*Scn {
 	}
 	add(ti, 60, "> ", set("hello"), k("killbol", 0), set("hello"), k("home", 0), k("killbol", 0), k("killeol", 0), k("delword", 0), k("wordleft", 0), k("wordright", 0))
 	add(ti, 60, "", Op{K: "paste", Via: "key", Gs: segment("pa\u0308ste 世")}, k("left", 0), Op{K: "paste", Via: "key", Gs: []string{"🇩🇪"}}, k("home", 0), Op{K: "paste", Via: "key", Gs: []string{}})
+	// what a submit leaves behind: Enter on a non-empty line, then motions to the end of the (now
+	// empty) field, then edits (seeded change C17c: the cached count survived the submit)
+	tf := "textfield"
+	for alt := 0; alt < 2; alt++ {
+		tk := func(name string) Op { return keyOp(tf, name, alt) }
+		add(tf, 40, "", insOp("a"), insOp("b"), insOp("c"), tk("enter"), tk("end"), insOp("世"), tk("left"), insOp("b"), tk("end"), tk("bs"))
+		add(tf, 40, "", insOp("a"), insOp(EAcute), insOp("c"), tk("enter"), tk("right"), tk("right"), tk("bs"), insOp("a"), tk("home"), insOp("b"))
+		add(tf, 40, "", insOp("a"), insOp("b"), tk("enter"), tk("end"), tk("del"), tk("killeol"), tk("left"), insOp("a"), insOp("b"), tk("left"), tk("killeol"))
+		add(tf, 40, "", insOp("a"), insOp("b"), insOp("c"), tk("enter"), Op{K: "goto", Via: "call", I: 2}, Op{K: "ins", Via: "call", Gs: []string{"x", "y"}}, tk("left"), Op{K: "bs", Via: "call"},
+			tk("enter"), tk("end"), Op{K: "pastectl", Via: "key", Gs: []string{"a", "\r", "b"}}, tk("left"), insOp("7"))
+	}
 	add("textfield", 40, "", insOp("a"), keyOp("textfield", "enter", 0), keyOp("textfield", "enter", 0), insOp("b"), Op{K: "reset", Via: "call"}, Op{K: "ins", Via: "call", Gs: []string{"x", "y"}},
 		Op{K: "goto", Via: "call", I: 1}, Op{K: "del", Via: "call"}, Op{K: "goto", Via: "call", I: 9}, Op{K: "bs", Via: "call"}, Op{K: "killeol", Via: "call"}, Op{K: "goto", Via: "call", I: 0}, Op{K: "killeol", Via: "call"})
 	return out
